@@ -1,4 +1,5 @@
 CONSTANT ParserLimit = TRUE
+CONSTANT DataLimit = TRUE
 SPECIFICATION Spec
 INVARIANT Emit
 CHECK_DEADLOCK FALSE
